@@ -503,6 +503,34 @@ func (c *Ctx) c12TOTPReplay() {
 		}
 		if has {
 			c.mustSaveAfterPut("C12.totp-replay-save", fn, except)
+			// for a replay-protected user the code is recorded on every path from its
+			// validation to the save
+			for _, tv := range CallsTo(fn, fnTOTPValidate) {
+				var okOT ssa.Value
+				for _, b := range fn.Blocks {
+					for _, in := range b.Instrs {
+						if x, ok := in.(*ssa.TypeAssert); ok && x.CommaOk && strings.HasSuffix(x.AssertedType.String(), "UserOneTime") && x.Referrers() != nil {
+							for _, ref := range *x.Referrers() {
+								if e, ok := ref.(*ssa.Extract); ok && e.Index == 1 {
+									okOT = e
+								}
+							}
+						}
+					}
+				}
+				if okOT == nil {
+					continue
+				}
+				q := PathQuery{From: tv.(ssa.Instruction), Assume: map[ssa.Value]bool{okOT: true, tv.Value(): true}, Cut: func(i ssa.Instruction) bool {
+					pc, ok := i.(ssa.CallInstruction)
+					return ok && pc.Common().IsInvoke() && pc.Common().Method.Name() == "PutTOTPLastCode"
+				}, Goal: IsCallTo(fnSave)}
+				if p := q.Find(); p != nil {
+					r.Bad("C12.totp-replay-save", FuncName(fn), "PutTOTPLastCode≺Save|UserOneTime", posf(c, tv), "for a replay-protected user the validated code can reach the save without being recorded as the last code: it is accepted again", c.P.DescribePath(p)...)
+				} else {
+					r.Ok("C12.totp-replay-save", FuncName(fn), "PutTOTPLastCode≺Save|UserOneTime", posf(c, tv), "recorded on every path to the save")
+				}
+			}
 			// what is recorded as the last code is the code that was validated
 			for _, call := range Calls(fn) {
 				cc := call.Common()
